@@ -80,6 +80,154 @@ def check_keyword_names(repo, rep, uni):
     return n
 
 
+def check_varkw_collisions(repo, rep, uni):
+    """R12e: a function that accepts arbitrary keyword arguments (**kwargs)
+    receives them as python keyword arguments of its payload.  A hidden
+    (injected) parameter of the same payload whose python name can be
+    written as a YAQL keyword collides with a user keyword of that name
+    (TypeError: multiple values) -- so `f(name => v)` works for every name
+    but that one."""
+    lex = repo.module('yaql.language.lexer')
+    pat = grammar.effective_token_regex('t_KEYWORD_STRING')
+    langs = regexlang.Languages({'kw': (pat, V)})
+    n = 0
+    for o in uni.reg.overloads:
+        if not any(p.kind == 'varkw' for p in o.params):
+            continue
+        for p in o.params:
+            if not p.type.hidden or p.kind in ('vararg', 'varkw'):
+                continue
+            n += 1
+            writable = langs.accepts('kw', p.name)
+            rep.ob('R12e', '%s/%s' % (o.func.key, p.name), not writable,
+                   '%s takes arbitrary keyword arguments and has the hidden '
+                   'parameter `%s`, a name an expression can write: '
+                   '`%s(%s => ...)` binds it twice (TypeError) although '
+                   'every other keyword works' % (
+                       o.name, p.name, o.name, p.name),
+                   loc=o.func.module.loc(o.func.node), construct=p.name)
+    return n
+
+
+def check_clone_copies_parameters(repo, rep):
+    """R12f: keyword names (aliases) are written into the parameter
+    definitions of a *clone* per context/convention
+    (get_function_definition: p.alias = convention...).  That is only
+    per-context if clone() gives the copy its own ParameterDefinition
+    objects."""
+    sp = repo.module('yaql.language.specs')
+    fd = sp.cls('FunctionDefinition')
+    cl = fd.methods.get('clone')
+    if cl is None:
+        raise AnalysisError('anchor vanished: FunctionDefinition.clone')
+    ctor = [c for c in model.calls_in(cl.node)
+            if isinstance(c.func, ast.Name) and c.func.id == fd.node.name]
+    ok = False
+    why = 'clone() does not construct a FunctionDefinition'
+    init = fd.methods['__init__'].params()[1:]
+    for c in ctor:
+        arg = None
+        if 'parameters' in init and init.index('parameters') < len(c.args):
+            arg = c.args[init.index('parameters')]
+        for k in c.keywords:
+            if k.arg == 'parameters':
+                arg = k.value
+        if arg is None:
+            why = 'the clone is built without parameters'
+            continue
+        e = norm.subst_locals(cl.node, arg, only_pure=False)
+        copies = [x for x in ast.walk(e) if isinstance(x, ast.Call) and (
+            (isinstance(x.func, ast.Attribute) and x.func.attr in (
+                'clone', '__copy__', '__deepcopy__')) or
+            model.norm(x.func) in ('copy.deepcopy', 'copy.copy',
+                                   'ParameterDefinition'))]
+        per_item = any(isinstance(x, (ast.DictComp, ast.GeneratorExp,
+                                      ast.ListComp)) for x in ast.walk(e)) \
+            or model.norm(e).startswith('copy.deepcopy(')
+        if copies and per_item:
+            ok = True
+        else:
+            why = 'the clone receives `%s`: the same ParameterDefinition ' \
+                  'objects as the original' % model.norm(e)[:80]
+    rep.ob('R12f', cl.key + '/copies-parameters', ok,
+           'FunctionDefinition.clone() must copy every parameter '
+           'definition; %s -- the keyword names written for one context\'s '
+           'naming convention then show up in every other context that '
+           'registers the same function' % why, loc=sp.loc(cl.node))
+
+
+def check_call_kwargs_verbatim(repo, rep):
+    """R12g: call(name, args, kwargs) hands the keys of `kwargs` to the
+    callee as they are (only non-keyword keys are dropped): the spelling
+    `call(f, [], {k => v})` names the same parameter as `f(k => v)`."""
+    sysm = repo.module('yaql.standard_library.system')
+    cf = sysm.func('call_func')
+    pname = 'kwargs' if 'kwargs' in cf.params() else None
+    if pname is None:
+        raise AnalysisError('anchor vanished: call_func(kwargs)')
+    star = []
+    for call in model.calls_in(cf.node):
+        for k in call.keywords:
+            if k.arg is None:
+                star.append(k.value)
+    rep.ob('R12g', cf.key + '/forwards-kwargs', bool(star),
+           'call() no longer forwards its kwargs as keyword arguments',
+           loc=sysm.loc(cf.node))
+
+    def key_preserving(e, depth=0):
+        """-> (ok, why)"""
+        if depth > 6:
+            return False, 'too deep'
+        if isinstance(e, ast.Name):
+            if e.id == pname and not any(
+                    isinstance(s, ast.Assign) and any(
+                        isinstance(t, ast.Name) and t.id == pname
+                        for t in s.targets)
+                    for s in model.walk_shallow(cf.node)):
+                return True, ''
+            vals = [s.value for s in model.walk_shallow(cf.node)
+                    if isinstance(s, ast.Assign) and any(
+                        isinstance(t, ast.Name) and t.id == e.id
+                        for t in s.targets)]
+            if not vals and e.id == pname:
+                return True, ''
+            if not vals:
+                return False, '`%s` is not derived from kwargs' % e.id
+            for v in vals:
+                ok, why = key_preserving(v, depth + 1) if not (
+                    isinstance(v, ast.Name) and v.id == e.id) else (True, '')
+                if not ok:
+                    return False, why
+            return True, ''
+        if isinstance(e, ast.Call):
+            d = repo.resolve(sysm, e.func, model.scope_locals(cf))
+            if d in ('yaql.language.utils.filter_parameters_dict',
+                     'builtins.dict') and len(e.args) == 1:
+                return key_preserving(e.args[0], depth + 1)
+            return False, '`%s` may rename keys' % model.norm(e)[:60]
+        if isinstance(e, ast.DictComp) and len(e.generators) == 1:
+            g = e.generators[0]
+            tgt = g.target
+            kname = tgt.elts[0].id if isinstance(
+                tgt, ast.Tuple) and tgt.elts and isinstance(
+                tgt.elts[0], ast.Name) else None
+            if isinstance(e.key, ast.Name) and e.key.id == kname and \
+                    isinstance(g.iter, ast.Call) and isinstance(
+                    g.iter.func, ast.Attribute) and \
+                    g.iter.func.attr == 'items':
+                return key_preserving(g.iter.func.value, depth + 1)
+            return False, 'the keys are rewritten: `%s`' % model.norm(
+                e.key)
+        return False, '`%s`' % model.norm(e)[:60]
+    for e in star:
+        ok, why = key_preserving(e)
+        rep.ob('R12g', cf.key + '/keys-verbatim', ok,
+               'call(name, args, kwargs) must pass the keys of kwargs '
+               'unchanged; %s -- the same mapping then names different '
+               'parameters through call() than written as `name => value`' %
+               why, loc=sysm.loc(e), construct=model.norm(e)[:100])
+
+
 def effective_registry():
     m = grammar.load_repo_package()
     yaql = m['yaql']
@@ -569,6 +717,12 @@ def run(repo, rep):
     rep.rule('R12c', 'KIND-PREDICATE: runner.call tests is_function '
              'without and is_method with a receiver; the kind decorators '
              'set the flags they are named after')
+    rep.rule('R12e', 'VARKW-NAMES-ARE-FREE: the hidden parameters of a '
+             'function with **kwargs have names no expression can write')
+    rep.rule('R12f', 'CLONE-COPIES-PARAMETERS: the per-context keyword names '
+             'are written into parameter objects the clone owns')
+    rep.rule('R12g', 'CALL-KWARGS-VERBATIM: call() forwards the keys of its '
+             'kwargs mapping unchanged')
     rep.rule('R12d', 'EMPTY-SLOTS: on the generated LALR tables, every '
              'pattern of value/empty positional slots (bounded length) '
              'ending in a value, optionally followed by keyword arguments, '
@@ -587,6 +741,9 @@ def run(repo, rep):
     n1 = check_keyword_names(repo, rep, uni)
     n2, neff = check_declared_vs_effective(repo, rep, uni)
     check_kind_predicate(repo, rep)
+    check_varkw_collisions(repo, rep, uni)
+    check_clone_copies_parameters(repo, rep)
+    check_call_kwargs_verbatim(repo, rep)
     n4 = check_empty_slots(repo, rep,
                            bound=10 if rep.tier == 'thorough' else 7)
     from sa.rules import c11
